@@ -75,7 +75,7 @@ if mode in ("purity","full"):
     for f,m,k,t,o,kind in fam:
         if kind!="mutate": continue
         other=[x for x in fam if x[3]==t and x[1]!=m][0]
-        om=other[1]
+        om=other[1]; of=other[0]
         # purity: a rule object that existed at entry and is not held by the merge context keeps every field
         untouched=(f"forall r *{t} :: old(allocated(r)) ==> r.Name == old(r.Name) && (!old(owns_{m}(p, r)) && !old(owns_{om}(p, r)) ==> r.Policy == old(r.Policy) && r.Intentions == old(r.Intentions))")
         evolves=(f"forall n string :: has(p.{m}, n) ==> p.{m}[n] != nil && allocated(p.{m}[n]) && ((old(has(p.{m}, n)) && p.{m}[n] == old(p.{m}[n])) || fresh(p.{m}[n]))")
@@ -109,10 +109,12 @@ if mode in ("purity","full"):
                 w(f"//@ {where}[{f}-intentions-max-attained] "+attained(f,m,k,upper,"irank","Intentions"))
             if o in (6,14):
                 # the sibling family's result (established by the previous loop) is carried through this loop
-                w(f"//@ loop {o} invariant[sibling-max-bound] "+bound(of,om,k,"len(policy.%s)"%of))
-                w(f"//@ loop {o} invariant[sibling-max-attained] "+attained(of,om,k,"len(policy.%s)"%of))
-                w(f"//@ loop {o} invariant[sibling-intentions-max-bound] "+bound(of,om,k,"len(policy.%s)"%of,"irank","Intentions"))
-                w(f"//@ loop {o} invariant[sibling-intentions-max-attained] "+attained(of,om,k,"len(policy.%s)"%of,"irank","Intentions"))
+                po=o-1
+                w(f"//@ loop {o} invariant[sibling-done] range{po}_idx == len(policy.{of})")
+                w(f"//@ loop {o} invariant[sibling-max-bound] "+bound(of,om,k,"range%d_idx"%po))
+                w(f"//@ loop {o} invariant[sibling-max-attained] "+attained(of,om,k,"range%d_idx"%po))
+                w(f"//@ loop {o} invariant[sibling-intentions-max-bound] "+bound(of,om,k,"range%d_idx"%po,"irank","Intentions"))
+                w(f"//@ loop {o} invariant[sibling-intentions-max-attained] "+attained(of,om,k,"range%d_idx"%po,"irank","Intentions"))
 w("//@ modifies "+", ".join(mods))
 text="\n".join(out)+"\n"
 p='/repo/acl/verif_contracts.go'
